@@ -30,14 +30,15 @@ func TestMain(m *testing.M) { hx.Main(m, run) }
 
 // Case: which secret, under which environment of the draw.
 type Case struct {
-	Kind     string // reseed-nonces | reseed-exchange | reseed-srp | clock-nonce | clock-exponent | reseed-exponent-params
-	Seed     int64  // value the process-global math/rand is seeded with (reseed kinds)
-	G        int32
-	Password string
-	Prime    string         `json:",omitempty"` // reseed-exponent-params: dh_prime (hex) as a server may send it; the client does not validate it
-	GA       string         `json:",omitempty"`
-	Scenario *scen.Scenario `json:",omitempty"`
-	Found    string         `json:",omitempty"` // how the secret was reproduced
+	Kind            string // reseed-nonces | reseed-exchange | reseed-srp | clock-nonce | clock-exponent | reseed-exponent-params
+	Seed            int64  // value the process-global math/rand is seeded with (reseed kinds)
+	G               int32
+	Password        string
+	SecureRandomLen int            `json:",omitempty"` // srp-distinct: length of the server's secure_random
+	Prime           string         `json:",omitempty"` // reseed-exponent-params: dh_prime (hex) as a server may send it; the client does not validate it
+	GA              string         `json:",omitempty"`
+	Scenario        *scen.Scenario `json:",omitempty"`
+	Found           string         `json:",omitempty"` // how the secret was reproduced
 }
 
 type rapidSource struct{ t *rapid.T }
@@ -125,6 +126,28 @@ func oracle(c *Case) error {
 			x2, _ := get()
 			if bytes.Equal(x1, x2) {
 				return fmt.Errorf("SRP ephemeral is reproducible: seeding the process-global math/rand with %d yields the same A = g^a twice", c.Seed)
+			}
+		case "srp-distinct":
+			// everything the server supplies with the password parameters - in particular its secure_random bytes, of any
+			// length - must leave the ephemeral a value of the OS source: repeated answers never repeat A = g^a
+			pB := ref.LeftPad(ref.DHPrime.Bytes(), 256)
+			sr := hx.Det(uint64(c.Seed), c.SecureRandomLen)
+			ap := &telegram.AccountPassword{
+				CurrentAlgo: &telegram.PasswordKdfAlgoSHA256SHA256PBKDF2HMACSHA512iter100000SHA256ModPow{Salt1: []byte{1, 2, 3}, Salt2: []byte{4, 5}, G: c.G, P: pB},
+				SRPB:        ref.LeftPad(new(big.Int).Exp(big.NewInt(int64(c.G)), big.NewInt(c.Seed|1), ref.DHPrime).Bytes(), 256), SRPID: 1,
+				SecureRandom: sr,
+			}
+			seen := map[string]int{}
+			for i := 0; i < 24; i++ {
+				res, err := telegram.GetInputCheckPassword(c.Password, ap)
+				if err != nil {
+					return fmt.Errorf("INFRA: %v", err)
+				}
+				a := string(res.(*telegram.InputCheckPasswordSRPObj).A)
+				if j, dup := seen[a]; dup {
+					return fmt.Errorf("SRP ephemeral repeats: answers %d and %d of 24 to the same parameters (secure_random of %d bytes) carry the same A = g^a - a is not 2048 bits of the OS source", j, i, c.SecureRandomLen)
+				}
+				seen[a] = i
 			}
 		case "reseed-exchange":
 			// two complete key exchanges in two fresh processes, each seeding the global generator with the same value
@@ -248,6 +271,29 @@ func TestC19(t *testing.T) {
 		}
 		return
 	}
+	t.Run("srp-secure-random-lengths", func(t *testing.T) {
+		nsh := hx.NShards()
+		var n int64
+		for i, l := range []int{0, 1, 2, 255, 256, 257} {
+			if i%nsh != run.Shard%nsh {
+				continue
+			}
+			c := &Case{Kind: "srp-distinct", Seed: int64(run.Seed)*100 + int64(i), G: []int32{3, 4, 7}[i%3], Password: "correct horse", SecureRandomLen: l}
+			run.Case(true, evid.Hash(c.Kind, c.Seed, c.G, c.Password, c.SecureRandomLen), "kind:"+c.Kind, fmt.Sprintf("secure_random_len=%d", l))
+			n++
+			if err := oracle(c); err != nil {
+				if strings.HasPrefix(err.Error(), "INFRA:") {
+					t.Fatalf("%v", err)
+				}
+				p := run.ViolationNamed(fmt.Sprintf("srp-sr%d", l), c, err.Error())
+				t.Errorf("violation (replay %s): %v", p, err)
+			}
+		}
+		run.Exhaustive("SRP answers under secure_random lengths {0,1,2,255,256,257} x 24 repetitions (this shard's share)", n)
+	})
+	if t.Failed() {
+		return
+	}
 	t.Run("exponent-params-enumerated", func(t *testing.T) {
 		idx, nsh := 0, hx.NShards()
 		var n int64
@@ -288,8 +334,11 @@ func TestC19(t *testing.T) {
 	t.Run("generated", func(t *testing.T) {
 		rapid.Check(t, func(t *rapid.T) {
 			c := &Case{Seed: rapid.OneOf(rapid.SampledFrom([]int64{0, 1, 42, -1, 1 << 40}), rapid.Int64()).Draw(t, "seed"), G: rapid.SampledFrom([]int32{3, 4, 7}).Draw(t, "g")}
-			c.Kind = rapid.SampledFrom([]string{"reseed-nonces", "reseed-nonces", "clock-nonce", "clock-exponent", "clock-exponent", "reseed-srp", "reseed-exchange", "reseed-exponent-params", "reseed-exponent-params"}).Draw(t, "kind")
+			c.Kind = rapid.SampledFrom([]string{"reseed-nonces", "reseed-nonces", "clock-nonce", "clock-exponent", "clock-exponent", "reseed-srp", "reseed-exchange", "reseed-exponent-params", "reseed-exponent-params", "srp-distinct"}).Draw(t, "kind")
 			switch c.Kind {
+			case "srp-distinct":
+				c.Password = rapid.StringN(1, 12, 40).Draw(t, "password")
+				c.SecureRandomLen = rapid.SampledFrom([]int{0, 1, 1, 2, 3, 16, 255, 256, 257, 1024}).Draw(t, "srlen")
 			case "reseed-exponent-params":
 				// primes small enough that g has a small order, and the real one; g is kept off 0, 1 and -1 modulo the prime
 				pr := rapid.SampledFrom([]string{"7", "b", "d", "17", "2f", "1fffffffffffffff", ref.DHPrime.Text(16)}).Draw(t, "prime")
@@ -321,7 +370,7 @@ func TestC19(t *testing.T) {
 				sc.ReseedGlobal = &seed
 				c.Scenario = sc
 			}
-			run.Case(true, evid.Hash(c.Kind, c.Seed, c.G, c.Password, c.Prime, c.GA), "kind:"+c.Kind)
+			run.Case(true, evid.Hash(c.Kind, c.Seed, c.G, c.Password, c.Prime, c.GA, c.SecureRandomLen), "kind:"+c.Kind)
 			run.Sample(map[string]any{"kind": c.Kind, "seed": c.Seed, "g": c.G})
 			if err := oracle(c); err != nil {
 				if strings.HasPrefix(err.Error(), "INFRA:") {
